@@ -8,6 +8,7 @@ import ClaripyProofs.Lemmas.VSA.Extract
 import ClaripyProofs.Lemmas.VSA.SextSound
 import ClaripyProofs.Lemmas.VSA.AndXor
 import ClaripyProofs.Lemmas.VSA.ConcatSound
+import ClaripyProofs.Lemmas.VSA.AshrSound
 /-!
 # C21 — strided-interval transfer functions are sound
 
@@ -222,6 +223,20 @@ example : (SI.new 3 3 6 4).WF ∧ (SI.new 2 1 3 1).WF ∧ (SI.new 3 3 6 4).mem 1
     (∃ r, (SI.new 3 3 6 4).concat (SI.new 2 1 3 1) = .ok r ∧ r.mem (Conc.concat 2 1 0) ∧ r.bits = 5) ∧
     (∃ r, (SI.new 3 0 5 5).concat (SI.new 2 1 3 1) = .ok r ∧ r.mem (Conc.concat 2 5 3) ∧ r.mem 20 ∧ ¬ r.mem 24) := by
   refine ⟨by decide, by decide, by decide, by decide, ⟨_, rfl, by decide, by decide⟩, ⟨_, rfl, by decide, by decide, by decide⟩⟩
+
+/-! ## arithmetic right shift (`_psplit`, then the logical shift plus the sign mask in the upper half) -/
+
+/-- `rshift_arithmetic` with an interval shift amount is sound and closed; operand in the form the constructor returns
+(the split at the north pole needs it) -/
+theorem C21_ashr_sound (a amt r : SI) (ha : a.WF) (hab : a.bottom = false) (hna : a.renorm = a) (hamt : amt.WF)
+    (h : a.rshiftArith amt = .ok r) :
+    (r.WF ∧ r.bits = a.bits) ∧ ∀ x y, a.mem x → amt.mem y → r.mem (Conc.ashr a.bits x y) :=
+  ashr_sound a amt r ha hab hna hamt h
+
+/-- non-vacuity: an operand straddling both poles, shifted by the amounts {1, 2} -/
+example : (SI.new 4 3 6 1).WF ∧ (SI.new 4 3 6 1).renorm = SI.new 4 3 6 1 ∧ (SI.new 4 3 6 1).mem 12 ∧ (SI.new 4 1 1 2).mem 2 ∧
+    Conc.ashr 4 12 2 = 15 ∧ (∃ r, (SI.new 4 3 6 1).rshiftArith (SI.new 4 1 1 2) = .ok r ∧ r.mem 15 ∧ r.mem 3) := by
+  refine ⟨by decide, by decide, by decide, by decide, by decide, ⟨_, rfl, by decide, by decide⟩⟩
 
 /-! ## sdiv — false on the code (floor instead of truncation), finding C21-sdiv-floor -/
 
